@@ -3,6 +3,7 @@ pub mod dsl;
 pub mod e2;
 pub mod plan_enum;
 pub mod plan_flat;
+pub mod plan_flavours;
 pub mod plan_parent;
 pub mod plan_struct;
 pub mod evidence;
